@@ -792,22 +792,33 @@ def run_jobs(ctx, fails, jobs):
             ctx.broken_ties.append('harness: comparing a frame failed: %r %s' % (e, traceback.format_exc()[-400:]))
 
 
-def degenerate_part(ctx, fails, frames=None):
+def degenerate_part(ctx, fails, frames=None, only_missing=False):
     """probability 1 / 0 (scalar, and conditionally for every stratum) in TimeFixedGFormula.fit_stochastic equals fit('all') /
     fit('none') of the SAME object configuration: every `standardize` target, with and without a weights column, saturated
     and non-saturated outcome models.  No randomness is left at p in {0,1}, so the comparison is exact."""
     from zepid.causal.gformula import TimeFixedGFormula
-    n = 3 if ctx.quick else 16
+    n = (3 if ctx.quick else 16) if not only_missing else (1 if ctx.quick else 5)
     made = frames or []
     if not frames:
         for i in range(n):
             otype = 'binary' if i % 3 != 2 else 'normal'
+            if only_missing:
+                i = 2 * i + 1
             df, meta = datagen.cat_frame(ctx.rng, outcome=otype, cell=(2, 6))
             df['W'] = [ctx.rng.choice([1, 1, 2, 3]) for _ in range(len(df))]
-            made.append({'data': df.to_dict('list'), 'meta': meta, 'model': ctx.rng.choice(['sat', 'sub']),
-                         'sub': ctx.rng.choice(meta['sub_models'])})
+            if i % 2 == 1:
+                # outcomes missing more often in one stratum of L0 (every stratum-by-arm cell keeps an observed outcome): the
+                # rows are retained, `predict_missing` decides whether they are averaged over
+                df['Y'] = df['Y'].astype(float)
+                first = sorted(set(df['L0']))[0]
+                for _, cell in df.groupby([c for c in df.columns if c.startswith('L')] + ['A']):
+                    k = len(cell) // 2 if cell['L0'].iloc[0] == first else (1 if len(cell) >= 3 and ctx.rng.random() < 0.5 else 0)
+                    df.loc[cell.index[:k], 'Y'] = np.nan
+            made.append({'data': {c: [None if (isinstance(v, float) and v != v) else v for v in df[c].tolist()] for c in df.columns},
+                         'meta': meta, 'model': ctx.rng.choice(['sat', 'sub']), 'sub': ctx.rng.choice(meta['sub_models'])})
     for fr in made:
-        df, meta = pd.DataFrame(fr['data']), fr['meta']
+        df, meta = pd.DataFrame({c: [float('nan') if v is None else v for v in vals] for c, vals in fr['data'].items()}), fr['meta']
+        has_missing = bool(df['Y'].isna().any())
         otype = meta['outcome']
         rhs = meta['sat_AL'] if fr['model'] == 'sat' else ('A + ' + fr['sub'] if fr['sub'] != '1' else 'A')
         l0 = 'L0'
@@ -817,38 +828,42 @@ def degenerate_part(ctx, fails, frames=None):
         ctx.nontriv(['degenerate', df['Y'].tolist(), df['A'].tolist(), rhs])
         for std in ('population', 'exposed', 'unexposed'):
             for wcol in (None, 'W'):
-                ctx.count('degenerate:standardize=%s,weights=%s' % (std, bool(wcol)))
+              for pm in ((True, False) if has_missing else (True,)):
+                ctx.count('degenerate:standardize=%s,weights=%s%s' % (std, bool(wcol), ',missing outcomes,predict_missing=%s' % pm if has_missing else ''))
+                pmk = {'predict_missing': pm} if has_missing else {}
                 try:
                     g = TimeFixedGFormula(df, 'A', 'Y', outcome_type=otype if otype != 'normal' else 'normal', standardize=std, weights=wcol)
                     g.outcome_model(rhs, print_results=False)
                     ref = {}
                     for plan, pv in (('all', 1.0), ('none', 0.0)):
-                        g.fit(plan)
+                        g.fit(plan, **pmk)
                         ref[pv] = float(g.marginal_outcome)
                     got = {}
                     for pv in (1.0, 0.0):
-                        g.fit_stochastic(p=pv, samples=3, seed=11)
+                        g.fit_stochastic(p=pv, samples=3, seed=11, **pmk)
                         got[('scalar', pv)] = float(g.marginal_outcome)
                         conds = ["g['%s']==%r" % (l0, v) for v in lv]
-                        g.fit_stochastic(p=[pv] * len(conds), conditional=conds, samples=3, seed=12)
+                        g.fit_stochastic(p=[pv] * len(conds), conditional=conds, samples=3, seed=12, **pmk)
                         got[('conditional', pv)] = float(g.marginal_outcome)
                     # a plan that conditions on the OBSERVED exposure: "everybody switches" (the treated stop with probability 1,
                     # the untreated start with probability 1) is the deterministic rule A := 1 - A, in every replicate
-                    g.fit("g['A']==0")
+                    g.fit("g['A']==0", **pmk)
                     ref['switch'] = float(g.marginal_outcome)
-                    g.fit_stochastic(p=[0.0, 1.0], conditional=["g['A']==1", "g['A']==0"], samples=4, seed=13)
+                    g.fit_stochastic(p=[0.0, 1.0], conditional=["g['A']==1", "g['A']==0"], samples=4, seed=13, **pmk)
                     got[('conditional-on-exposure', 'switch')] = float(g.marginal_outcome)
                 except Exception as e:   # noqa
                     fails.append((len(df), 'TimeFixedGFormula.fit_stochastic.degenerate.raises',
-                                  'TimeFixedGFormula(standardize=%s, weights=%s): %s: %s' % (std, wcol, type(e).__name__, str(e)[:120]), payload))
+                                  'TimeFixedGFormula(standardize=%s, weights=%s%s): %s: %s' % (std, wcol, ', predict_missing=%s' % pm if has_missing else '',
+                                                                                              type(e).__name__, str(e)[:120]), payload))
                     continue
                 ctx.programs += 1
                 for (how, pv), v in got.items():
                     ctx.disagreements_checked += 1
                     if not (abs(v - ref[pv]) <= 1e-9 * max(1.0, abs(ref[pv]))):
                         fails.append((len(df), 'TimeFixedGFormula.fit_stochastic.degenerate.%s' % std,
-                                      "TimeFixedGFormula(standardize=%s, weights=%s, model %r): fit_stochastic with %s probability %g gives %r, "
-                                      "fit(%r) gives %r" % (std, wcol, rhs, how, pv if pv != 'switch' else 1.0, v,
+                                      "TimeFixedGFormula(standardize=%s, weights=%s, model %r%s): fit_stochastic with %s probability %g gives %r, "
+                                      "fit(%r) gives %r" % (std, wcol, rhs, ', missing outcomes, predict_missing=%s' % pm if has_missing else '', how,
+                                                            pv if pv != 'switch' else 1.0, v,
                                                             "g['A']==0" if pv == 'switch' else ('all' if pv == 1.0 else 'none'), ref[pv]), payload))
 
 
